@@ -172,7 +172,7 @@ def check_fsm(ctx, prog, which):
     ok_msg = 'ClientChallenge' if which == 'server' else 'ServerAck'
     ctx.note_witness('C17.%s.handshake_can_complete' % which, (ok_from, ok_msg, 'Ok') in seen)
     ctx.note_witness('C17.%s.wrong_digest_reaches_close' % which, (ok_from, ok_msg, 'Close') in seen)
-    ctx.extra.setdefault('transitions', {})[which] = sorted('%s --%s--> %s' % t for t in seen if t[2] != 'Close')
+    ctx.extra.setdefault('handshake_transitions', {})[which] = sorted('%s --%s--> %s' % t for t in seen if t[2] != 'Close')
 
 
 def check_start_challenge(ctx, prog):
